@@ -37,5 +37,6 @@ def run(ctx):
     ctx.run("C08.UNORDERED", "R-TABLE", c08.unordered)
     ctx.run("C08.SEED", "R-WHO", c08.seed)
     ctx.run("C08.MEMO", "R-ORDER", c08.memo)
+    ctx.run("C08.FEED-TOTAL", "R-FLOW", c08.feed_total)
     ctx.run("C08.PROTO", "R-FLOW", c08.proto)
     ctx.run("C08.NO-COLLAPSE", "R-TABLE", c08.no_collapse)
